@@ -105,8 +105,12 @@ def __extract_segments(
         "ciphertext": urlsafe_b64decode(base64_segments["ciphertext"]),
         "tag": urlsafe_b64decode(base64_segments["tag"]),
     }
+    # keep the received octets of the protected header (and AAD): they are what was authenticated
+    base64_segments["aad"] = to_bytes(data["protected"])
     if "aad" in data:
         aad = urlsafe_b64decode(to_bytes(data["aad"]))
+        if aad:
+            base64_segments["aad"] = base64_segments["aad"] + b"." + to_bytes(data["aad"])
     else:
         aad = None
     return base64_segments, bytes_segments, aad
